@@ -538,7 +538,7 @@ func (g *igen) directedObject(m map[string]any, depth int) any {
 			continue
 		}
 		var sub any
-		if pp := asObj(m["patternProperties"]); pp != nil && r.IntN(2) == 0 {
+		if pp := asObj(m["patternProperties"]); len(pp) > 0 && r.IntN(2) == 0 {
 			sub = pp[Pick(r, sortedKeysAny(pp))]
 		} else if ap, ok := m["additionalProperties"]; ok {
 			sub = ap
